@@ -868,6 +868,7 @@ class Controller(object):
 
         # Otherwise, we are doing a restart
         self.last_successful_iter = 0
+        self.rhoend = params("restarts.rhoend_scale") * self.rhoend  # keep in step with the main loop's rhoend
         return None  # exit_info = None
 
     def move_furthest_points(self, number_of_samples, num_pts_to_move, params):
